@@ -1060,7 +1060,7 @@ for _nm, _ps, _is in [
         ('cvxopt.base.gemm', ['C'], [2]), ('cvxopt.base.syrk', ['C'], [1]),
         ('cvxopt.base.axpy', ['y'], [1]),
         ('cvxopt.misc.scale', ['x'], [0]), ('cvxopt.misc.scale2', ['x'], [1]),
-        ('cvxopt.misc.sprod', ['x'], [0]), ('cvxopt.misc.sinv', ['x'], [0]),
+        ('cvxopt.misc.sinv', ['x'], [0]),
         ('cvxopt.misc.ssqr', ['x'], [0]), ('cvxopt.misc.pack', ['y'], [1]),
         ('cvxopt.misc.pack2', ['x'], [0]), ('cvxopt.misc.unpack', ['y'], [1]),
         ('cvxopt.misc.trisc', ['x'], [0]), ('cvxopt.misc.triusc', ['x'], [0]),
@@ -1128,6 +1128,29 @@ def misc_sgemv(ex, st, args, kwargs, n):
     mutate(ex, st, y, 'misc.sgemv', n)
     linear_update(ex, st, arg(args, kwargs, 0, 'A'), x, y, oldy, t,
                   alpha, arg(args, kwargs, 6, 'beta', 0.0), n)
+    return None
+
+
+@L.register('cvxopt.misc.sprod', mutates=['x', 'y'])
+def misc_sprod(ex, st, args, kwargs, n):
+    """sprod(x, y, dims, mnl = 0, diag = 'N'): x := y o x.  With diag = 'N'
+    both implementations first write the upper triangles of the 's' blocks
+    of y (symm(y, m, offset)): y is modified too (its lower triangles, which
+    are all the solvers read, are unchanged) -- established on the C kernel
+    by the kernel-frame obligations of contracts/c/misc_spec.py"""
+    x = arg(args, kwargs, 0, 'x')
+    y = arg(args, kwargs, 1, 'y')
+    diag = arg(args, kwargs, 4, 'diag', 'N')
+    c, dv = const_of(diag)
+    if x is not None:
+        mutate(ex, st, x, 'misc.sprod', n)
+    if y is not None and not (c and dv == 'D'):
+        keep = mat(st, y).f.get('last_max_step') if is_matrix(st, y) else None
+        mutate(ex, st, y, "misc.sprod(diag='N') [symmetrises y]", n,
+               z3.Int('SYM_ALL'))
+        if is_matrix(st, y):
+            # the lower triangles are unchanged: max_step(y) is still valid
+            mat(st, y).f['last_max_step'] = keep
     return None
 
 
